@@ -1751,6 +1751,17 @@ def check_C15(ck, res, replay):
             m = gen.mutate(rng, text)
             if py_grammar(m) is None:
                 add(m, rng.pick(["hybrid", "biodivine", "naive"]), "none", ["grd", "com", "stm"], None, valid=False)
+        # grammatical text that is not an ADF: a condition for, or an atom naming, a statement that was never declared
+        for _ in range(45 if quick else 600):
+            text, n = gen.gen_adf(rng, nmax=4, depth=2, style=0, layout={}, degenerate=False)
+            ghost = "zz%d" % rng.below(9)
+            if rng.chance(1, 2):
+                bad = text + "ac(%s,%s)." % (ghost, rng.pick(["c(v)", "a", "neg(a)"]))          # head not declared, at the end
+                if rng.chance(1, 2):
+                    bad = "ac(%s,c(v))." % ghost + text                                          # ... or in front
+            else:
+                bad = text + "s(q).ac(q,and(a,%s))." % ghost                                        # atom not declared
+            add(bad, rng.pick(["hybrid", "biodivine", "naive"]), rng.pick(["none", "lexi"]), [rng.pick(["grd", "com", "stm"])], None, valid=False)
     real = run_cli_cases(ck, binary, cases) if binary else {}
     model, f2 = ck.run_sharded(os.path.join(ck.ROOT, "ocaml", "driver"), cf.lines, "C15.model")
     if f2:
